@@ -17,7 +17,7 @@ from pyvc.spec import All, Forall, close
 
 from .blocks_c08 import BU, flat
 from .coordinates_c13 import _coords, _rand_coords
-from .lsq_c02 import SplineFit, TrendFit
+from .lsq_c02 import SplineFit, TrendFit, VectorSplineFit
 from .models_c03 import TrendJacobian, TrendPredict, _trend
 from .spline_c03 import SplineJacobian, SplinePredict, _spline
 from .vector_c03 import VectorSplinePredict, _vspline
@@ -128,6 +128,17 @@ class SplineFitIntCoords(SplineFit):
     cover_raise = False
 
 
+@register
+class VectorSplineFitIntData(VectorSplineFit):
+    key = "C04:int:verde.vector:VectorSpline2D.fit"
+
+    def configs(self, tier):
+        return [c for c in VectorSplineFit.configs(self, tier) if "dkinds" in c]
+
+    samples = None
+    cover_raise = False
+
+
 # ------------------------------------------------------------------ reshape invariance (lemmas over the contracts)
 
 
@@ -227,7 +238,7 @@ def layout_pair(name, variant, seed):
     # integer lattice points in general position (no ties for the neighbour gridders), integer-valued data
     pts = rng.permutation(40 * 40)[:n]
     e, nn = (pts // 40).astype(float) + 0.0, (pts % 40).astype(float)
-    jit = rng.uniform(-0.2, 0.2, (2, n)) if variant not in ("int_dtype",) else np.zeros((2, n))
+    jit = rng.uniform(-0.2, 0.2, (2, n)) if variant not in ("int_dtype", "partial_int_dtype") else np.zeros((2, n))
     e, nn = e + jit[0], nn + jit[1]
     d = np.round(rng.uniform(-9, 9, n))
     d2 = np.round(rng.uniform(-9, 9, n))
@@ -256,6 +267,18 @@ def layout_pair(name, variant, seed):
         qv = (np.round(q[0]), np.round(q[1]))
         ref = fit_predict(name, (e, nn), data, qv)
         out = fit_predict(name, (e.astype(np.int64), nn.astype(np.int64)), tuple(x.astype(np.int64) for x in data) if isinstance(data, tuple) else data.astype(np.int64), (qv[0].astype(np.int64), qv[1].astype(np.int64)))
+        return ref, out, q[0].shape
+    elif variant == "partial_int_dtype":
+        # only SOME of the arrays carry an integer dtype (each one independently); the others hold fractional values
+        comps = list(data) if isinstance(data, tuple) else [data]
+        arrs = [e, nn] + comps + [np.round(q[0]), np.round(q[1])]
+        cast = [rng.random() < 0.5 for _ in arrs]
+        if all(cast) or not any(cast):
+            cast[rng.randint(0, len(arrs))] ^= True
+        arrs = [x if c else x + rng.uniform(0.05, 0.45, x.shape) for x, c in zip(arrs, cast)]
+        as_f = lambda xs: (tuple(xs[:2]), (tuple(xs[2:-2]) if isinstance(data, tuple) else xs[2]), tuple(xs[-2:]))  # noqa: E731
+        ref = fit_predict(name, *as_f(arrs))
+        out = fit_predict(name, *as_f([x.astype(rng.choice(["int64", "int32"])) if c else x for x, c in zip(arrs, cast)]))
         return ref, out, q[0].shape
     elif variant == "query_1d":
         qv = (q[0].ravel(), q[1].ravel())
@@ -291,7 +314,7 @@ class LayoutPair(Contract):
         return []
 
     def samples(self, rng, nrng, tier):
-        variants = ["permuted", "reshaped_2d", "fortran", "strided", "series", "extra_coord", "int_dtype", "query_1d", "linearity"]
+        variants = ["permuted", "reshaped_2d", "fortran", "strided", "series", "extra_coord", "int_dtype", "partial_int_dtype", "partial_int_dtype", "query_1d", "linearity"]
         for name in _gridders(None):
             for variant in variants:
                 if variant == "linearity" and name not in LINEAR:
